@@ -5,7 +5,7 @@
 
    Text is `list N` (code points), bytes are `list N` (0..255).  Exceptions are values (`outcome`).
    External calls are function arguments (oracles): Python's int() (`int_of`), zlib.decompress, bytes.decode('utf-8'),
-   zlib.compress, str.encode('utf-8').  For int() a precise executable model `py_int` is given as well (CPython 3.12,
+   zlib.compress.  For int() a precise executable model `py_int` is given as well (CPython 3.12,
    base 10: whitespace strip, sign, digits of Unicode category Nd, single underscores, 4300 digit limit); it is the
    instance used by `run` and is validated against CPython by the harness on every run. *)
 From Coq Require Import ZArith NArith List Bool.
@@ -178,9 +178,8 @@ Definition py_int (t : text) : option Z :=
   let s := rstrip (lstrip t) in
   let '(neg, body) :=
     match s with
-    | 45 :: r => (true, r)
-    | 43 :: r => (false, r)
-    | _ => (false, s)
+    | c :: r => if N.eqb c 45 then (true, r) else if N.eqb c 43 then (false, r) else (false, s)
+    | [] => (false, s)
     end in
   match digits_of body false with
   | None => None
@@ -395,9 +394,12 @@ Definition utf8_char (c : N) : list N :=
   else [240 + c / 262144; 128 + (c / 4096) mod 64; 128 + (c / 64) mod 64; 128 + c mod 64].
 
 Definition hex_digit (n : N) : N := if N.ltb n 10 then 48 + n else 55 + n.
-Definition pct (b : N) : text := [37; hex_digit (b / 16); hex_digit (b mod 16)].
+Definition pct (b : N) : text := [37; hex_digit ((b / 16) mod 16); hex_digit (b mod 16)].   (* b < 256 *)
 Definition quote_char (c : N) : text := if quote_safe c then [c] else flat_map pct (utf8_char c).
 Definition quote (t : text) : text := flat_map quote_char t.
+
+(* str.encode('utf-8') (same remark on lone surrogates) *)
+Definition encode_utf8 (t : text) : list N := flat_map utf8_char t.
 
 (* a documentable as the writer sees it.
    tag: 0 Module/Package, 1 Class, 2 Function with kind FUNCTION, 3 Function of another kind, 4 Attribute, 5 other
@@ -497,7 +499,7 @@ Definition header (project version : text) : text :=
    46; 10].                                                 (* "# The rest of this file is compressed with zlib.\n" *)
 
 (* generate(): header.encode('utf-8') + zlib.compress(b''.join(line.encode('utf-8') for each line)) *)
-Definition generate (encode_utf8 : text -> list N) (compress : list N -> list N)
+Definition generate (compress : list N -> list N)
            (project version : text) (root_names : list text) (subjects : list obj) : list N :=
   encode_utf8 (header project version) ++ compress (concat (map encode_utf8 (gen_lines root_names subjects))).
 
